@@ -23,6 +23,9 @@ var sharedProgs = []Prog{
 	{"mutable-input", `arr[0] = a; arr = append(arr, b); out := arr`, false},
 	{"failing", `f := func(x) { return x + "s" - 1 }; out := f(a)`, false},
 	{"failing-module", `m := import("m"); out := m.f("q")`, false},
+	{"error-payload-input", `e.value.k = a; e.value.list[0] = b; e.value.list = append(e.value.list, a); out := [e.value.k, e.value.list]`, false},
+	{"nested-input", `nest.m.k = a; nest.l[1][0] = b; nest.l[0] = a; nest.by[0] = 7; out := [nest.m.k, nest.l]`, false},
+	{"state-from-previous-run", `if is_undefined(keep) { keep = {n: 0, e: error({hits: [0]})} }; keep.n += a; keep.e.value.hits[0] += 1; keep.e.value.hits = append(keep.e.value.hits, b); out := [keep.n, keep.e.value.hits]`, false},
 	{"string-builtins", `s := "héllo"; out := [string(s), bytes(s), len(s), s + s, char(a)]`, false},
 }
 
@@ -36,6 +39,15 @@ func c08Compile(p Prog, a, b int64) *tengo.Compiled {
 	_ = s.Add("a", a)
 	_ = s.Add("b", b)
 	_ = s.Add("arr", []interface{}{1, 2})
+	_ = s.Add("keep", nil)
+	_ = s.Add("e", &tengo.Error{Value: &tengo.Map{Value: map[string]tengo.Object{"k": &tengo.Int{Value: -1},
+		"list": &tengo.Array{Value: []tengo.Object{&tengo.Int{Value: 1}, &tengo.Int{Value: 2}}}}}})
+	_ = s.Add("nest", &tengo.Map{Value: map[string]tengo.Object{
+		"m":  &tengo.Map{Value: map[string]tengo.Object{"k": &tengo.Int{Value: -1}}},
+		"l":  &tengo.Array{Value: []tengo.Object{&tengo.Int{Value: 0}, &tengo.Array{Value: []tengo.Object{&tengo.Int{Value: 5}}}}},
+		"by": &tengo.Bytes{Value: []byte{1, 2}},
+		"im": &tengo.ImmutableMap{Value: map[string]tengo.Object{"x": &tengo.Array{Value: []tengo.Object{&tengo.Int{Value: 3}}}}},
+	}})
 	c, err := s.Compile()
 	vf.Assert(err == nil, "shared-constant program compiles: "+p.Name)
 	return c
@@ -54,6 +66,12 @@ func C08_Clones() {
 	a, b := vf.Int64("a"), vf.Int64("b")
 	a2 := vf.Int64("a2")
 	c := c08Compile(p, a, b)
+	fresh := c08Compile(p, a, b)
+	if vf.Choice("original-ran-before", 2) == 1 {
+		// clones taken from an object that has already run carry the state left by that run
+		_, _ = runQuiet(c)
+		_, _ = runQuiet(fresh)
+	}
 	ca, cb, alone := c.Clone(), c.Clone(), c.Clone()
 	_ = cb.Set("a", a2)
 	_ = alone.Set("a", a2)
@@ -77,6 +95,7 @@ func C08_Clones() {
 	vf.Assert(sameGlobals(alone, cb), "a clone produces the results it produces when run alone: "+p.Name)
 	// the original is untouched by both
 	vf.Assert(c.Get("a").Int64() == a && c.Get("b").Int64() == b, "running or setting a clone does not affect the original: "+p.Name)
+	vf.Assert(sameGlobals(fresh, c), "no value reachable from the original's globals is changed by running its clones: "+p.Name)
 	vf.Assert(cb.Get("b").Int64() == b || p.Name == "mutable-input", "setting a variable of one clone does not affect another clone: "+p.Name)
 	vf.Reach("clones")
 }
